@@ -154,7 +154,13 @@ _diff = [i for i in range(_L) if PICKLES[1][i] != PICKLES[2][i]]
 if not (_diff and _diff[0] < CHUNK <= _diff[-1]):
     raise HarnessBroken('read chunk boundary does not separate the version-dependent bytes')
 
-ENTRY_STATES = ('absent', 'fresh', 'stale', 'truncated', 'garbage')
+# truncation representatives: empty file, just the PROTO opcode, exactly after the FRAME header
+# (a frame boundary), and mid-stream - they raise different exception classes in pickle.load
+FRAME_HDR = 11
+TRUNCATIONS = {'trunc0': 0, 'trunc2': 2, 'trunc-frame': FRAME_HDR, 'trunc-mid': CHUNK - 7}
+if not (PICKLES[2][:2] == b'\x80\x04' and PICKLES[2][2:3] == b'\x95'):
+    raise HarnessBroken('pickled entry does not start with PROTO 4 + FRAME')
+ENTRY_STATES = ('absent', 'fresh', 'stale', 'trunc0', 'trunc2', 'trunc-frame', 'trunc-mid', 'garbage')
 MOVES = ('rename', 'copy')
 
 # name -> (actor kinds..., options)
@@ -170,6 +176,7 @@ SCENARIOS = {
     'scan||scan||modify':   (('A', 'scan'), ('B', 'scan'), ('M', 'modify')),
     'store-crash;load':     (('S', 'store!'), ('L', 'load>S')),
     'store-crash||load':    (('S', 'store!'), ('L', 'load')),
+    'sequential':           (),
 }
 SCN_ORDER = ['load||store', 'scan||scan', 'scan||modify', 'load||purge', 'load||purge(nover)', 'store||purge',
              'purge||purge', 'store-crash;load', 'store-crash||load', 'load||store||store', 'scan||scan||modify']
@@ -386,8 +393,10 @@ def make_exec(scn, entry, move):
         vfs.mkfile(ENTRY, PICKLES[2], 20.875, init)
     elif entry == 'stale':
         vfs.mkfile(ENTRY, PICKLES[1], 20.125, init)
-    elif entry == 'truncated':
-        vfs.mkfile(ENTRY, PICKLES[2][:CHUNK - 7], 20.875, init)
+    elif isinstance(entry, bytes):
+        vfs.mkfile(ENTRY, entry, 20.875, init)
+    elif entry in TRUNCATIONS:
+        vfs.mkfile(ENTRY, PICKLES[2][:TRUNCATIONS[entry]], 20.875, init)
     elif entry == 'garbage':
         vfs.mkfile(ENTRY, b'\x00not a pickle\xff' * 20, 20.875, init)
     vfs.clock = 30.125
@@ -556,7 +565,138 @@ def explore_unit(part, tier, scn, entry, move, bounds, roots=None):
                                    'results': [list(r) for r in res]})
 
 
+# ---------------------------------------------------- sequential family ---
+SEQ = 'broken-entry(sequential)'
+# A well-formed pickle of an object that is not a parser is neither "unreadable" nor "truncated";
+# the statement does not fix what load does with it.  On the current tree load returns the object and
+# _parse_include then raises AttributeError (and keeps doing so: the entry is never discarded).
+# Set to True to demand None / a fresh parse for it as well.
+FOREIGN_OBJECT_IS_MUST = False
+
+
+def _big_pickle():
+    """A real pickled parser large enough to span several pickle frames."""
+    recs = ''.join('<record name="R%04d" c:type="DepR%04d"/>\n' % (i, i) for i in range(900))
+    text = (GIR % {'v': 2}).replace('<record name="M" c:type="DepM"/>\n', recs)
+    p = GIRParser(types_only=True)
+    p.parse_tree(ET.ElementTree(ET.fromstring(text.encode('utf-8'))))
+    return pickle.dumps(p)
+
+
+def _frame_cuts(data):
+    import pickletools
+    cuts = set()
+    for op, arg, pos in pickletools.genops(data):
+        if op.name == 'FRAME':
+            cuts.update((pos, pos + 1, pos + 9, pos + 10))       # frame boundary, inside/after its header
+    return sorted(c for c in cuts if 0 <= c < len(data))
+
+
+def garbage_classes():
+    P = PICKLES[2]
+    return [
+        ('random-bytes', b''.join(hashlib.sha256(bytes([i])).digest() for i in range(8))),
+        ('nul-bytes', b'\0' * 64),
+        ('text', b'hello world\n' * 10),
+        ('pickle-header+junk', P[:FRAME_HDR] + b'\xff\x00junk' * 30),
+        ('frame-longer-than-file', b'\x80\x04\x95\xff\xff\xff\xff\xff\xff\xff\x7fK\x01.'),
+        ('class-in-missing-module', b'cgiscanner.nonexistent_module\nFoo\n.'),
+        ('missing-class', b'cgiscanner.ast\nNoSuchClass\n.'),
+        ('bad-int-literal', b'I12abc\n.'),
+        ('bad-utf8-string', b'\x8c\x01\xff.'),
+        ('reduce-on-int', b'K\x01K\x02\x85R.'),
+        ('setitem-on-int', b'K\x01K\x02K\x03s.'),
+        ('bad-memo-ref', b'h\x00.'),
+        ('stack-underflow', b'.'),
+        ('entry+trailing-junk-cut', P[:-1] + b'\xff'),
+        ('two-entries-concatenated-cut', P + P[:40]),
+    ]
+
+
+def seq_cases(tier):
+    """Every prefix of a real entry, every cut around a frame boundary of a multi-frame
+    entry, and the garbage classes."""
+    cases = [('prefix', n) for n in range(len(PICKLES[2]) + 1)]
+    cases += [('bigcut', n) for n in _frame_cuts(_BIG[0])]
+    cases += [('garbage', name) for name, _ in garbage_classes()]
+    cases += [('foreign-object', 0)]
+    return cases
+
+
+_BIG = [_big_pickle()]
+if len(_frame_cuts(_BIG[0])) < 8:
+    raise HarnessBroken('the large entry does not span several pickle frames')
+
+
+def seq_content(case):
+    kind, x = case
+    if kind == 'prefix':
+        return PICKLES[2][:x]
+    if kind == 'bigcut':
+        return _BIG[0][:x]
+    if kind == 'garbage':
+        return dict(garbage_classes())[x]
+    if kind == 'foreign-object':
+        return pickle.dumps({'not': ['a', 'parser']})
+    raise HarnessBroken('unknown sequential case %r' % (case,))
+
+
+def seq_run(case, call):
+    """One process, no scheduling: entry = content (newer than the source), then load or
+    _parse_include on the real code, then the quiescence scan.  Returns the Exec."""
+    ex = make_exec('sequential', seq_content(case), 'rename')
+    mon = ex.monitor
+    a = ex.solo('L' if call == 'load' else 'A', 'H1')
+    if call == 'load':
+        cs = cachestore.CacheStore()
+        _call(mon, a, 'load', lambda: cs.load(SRC))
+    else:
+        tr = gtransformer.Transformer(None)
+        _call(mon, a, 'scan', lambda: tr._parse_include(SRC))
+    ex.seq_steps = a.nsteps
+    quiesce(ex)
+    return ex
+
+
+def _work_seq(unit):
+    _, cases = unit
+    part = Part()
+    best = {}
+    for case in cases:
+        case = tuple(case)
+        complete = case == ('prefix', len(PICKLES[2]))
+        for call in ('load', 'scan'):
+            ex = seq_run(case, call)
+            res = results_of(ex)
+            part.add(evaluations=1, traces_validated_against_impl=1, transitions=ex.seq_steps,
+                     **{'sequential.executions': 1})
+            part.outcome(('seq', case[0], complete, res))
+            if case[0] == 'foreign-object' and not FOREIGN_OBJECT_IS_MUST:
+                # a well-formed pickle of something that is not a parser is neither unreadable nor
+                # truncated: the statement does not say what load must do with it
+                part.add(unspecified=1)
+                continue
+            part.nontrivial('seq/%s/%s/%s' % (case[0], case[1], call))
+            for v in ex.monitor.violations:
+                key = '%s@%s' % (v['mechanism'], SEQ)
+                rank = (0, 0, case[1] if isinstance(case[1], int) else 0)
+                if key not in best or rank < best[key][0]:
+                    best[key] = (rank, v, case, call, res)
+        part.add(states=1)
+    if cases:
+        part.sample({'scenario': SEQ, 'case': list(cases[0]), 'calls': ['load', '_parse_include']})
+    for key, (rank, v, case, call, res) in sorted(best.items()):
+        desc = ('%s with the entry = %s %r (%d bytes, newer than the source), one process, no concurrency: %s'
+                % (v['call'], case[0], case[1], len(seq_content(case)), ' | '.join(v['reasons'])))
+        part.violation(key, desc, {'scenario': 'sequential', 'case': list(case), 'call': call,
+                                   'mechanism': v['mechanism'], 'reasons': v['reasons'], 'rank': list(rank),
+                                   'results': [list(r) for r in res]})
+    return part.result()
+
+
 def _work(unit):
+    if unit[0] == 'seq':
+        return _work_seq(unit)
     part = Part()
     tier, scn, entry, move, bounds = unit
     explore_unit(part, tier, scn, entry, move, bounds)
@@ -595,11 +735,18 @@ def units(tier):
     for scn in SCN_ORDER:
         for entry in ENTRY_STATES:
             for move in MOVES:
-                out.append((tier, scn, entry, move, bounds_for(tier, scn)))
+                bounds = bounds_for(tier, scn)
+                if tier == 'quick' and entry in ('trunc0', 'trunc2', 'trunc-frame'):
+                    # the extra truncation classes differ from trunc-mid only in the exception class
+                    # pickle.load raises: quick explores them up to 1 preemption, thorough fully
+                    bounds = [b for b in bounds if b <= 1]
+                out.append((tier, scn, entry, move, bounds))
     return out
 
 
 def _weight(u):
+    if u[0] == 'seq':
+        return -30
     _, scn, entry, move, bounds = u
     w = len(SCENARIOS[scn]) ** 3 * (3 if 'scan' in scn else 1) * (2 if 'purge' in scn else 1)
     return -(w * (2 if move == 'copy' else 1) * (1 if entry == 'fresh' else 2))
@@ -607,6 +754,9 @@ def _weight(u):
 
 def run(ctx):
     us = units(ctx.tier)
+    from vt.core import chunked
+    seq = seq_cases(ctx.tier)
+    us += [('seq', c) for c in chunked(seq, 12)]
     ctx.max_reports = 60
     # heaviest first (load balance); the seed only rotates dispatch among equal weights
     us = sorted(rotate(us, ctx.seed), key=_weight)
@@ -632,10 +782,18 @@ def run(ctx):
                  'x initial entry state x move kind; depth-first with prefix re-execution on fresh threads, state '
                  'cache on (VFS contents+mtimes, per-actor observations, oracle state). non-trivial = distinct '
                  '(scenario, entry, move, result vector) in which some call returned a parse (oracle answered MUST '
-                 'on its version)',
+                 'on its version). Sequential family (one process, no scheduling): every prefix length of a real '
+                 'entry, every cut at/around a frame boundary of a multi-frame entry and a list of garbage classes, '
+                 'each under load and under _parse_include: None / a fresh parse, no exception',
             bounds={'scenarios': SCN_ORDER, 'entry_states': list(ENTRY_STATES), 'moves': list(MOVES),
                     'preemption_bounds': dict((s, bounds_for(ctx.tier, s)) for s in SCN_ORDER),
-                    'per_bound': per_bound, 'read_chunk': CHUNK, 'pickle_len': _L,
+                    'quick_cap_for_entries': {'trunc0/trunc2/trunc-frame': 'bounds <= 1 in the quick tier'},
+                    'per_bound': per_bound,
+                    'sequential': {'prefix_lengths': [0, _L], 'multi_frame_entry_bytes': len(_BIG[0]),
+                                   'frame_boundary_cuts': len(_frame_cuts(_BIG[0])),
+                                   'garbage_classes': [n for n, _ in garbage_classes()],
+                                   'unspecified': ['foreign-object (well-formed pickle of a non-parser)'],
+                                   'calls': ['CacheStore.load', 'Transformer._parse_include']}, 'read_chunk': CHUNK, 'pickle_len': _L,
                     'write_split': 2, 'copy_chunks': 2})
     ctx.assumptions += [
         'each virtual-file-system call is atomic; Python code between calls has no effect other processes can see',
@@ -658,7 +816,25 @@ def run(ctx):
         raise HarnessBroken('oracle never answered MUST')
 
 
+def replay_sequential(ctx, case):
+    c = tuple(case['case'])
+    content = seq_content(c)
+    print('one process, entry = %s %r: %d bytes %r..., newer than the source (v2)' % (c[0], c[1], len(content), content[:16]))
+    ok = True
+    for call in ('load', 'scan'):
+        ex = seq_run(c, call)
+        for k in ex.monitor.calls:
+            print('call %s.%s -> %s' % (k['actor'], k['kind'], k['exc'] or ('None' if k['summary'] == 'None' else
+                                                                          'parse of v%s' % k.get('version', '? ' + repr(k['summary'])))))
+        for v in ex.monitor.violations:
+            ok = False
+            print('VIOLATED by %s [%s]: %s' % (v['call'], v['mechanism'], ' | '.join(v['reasons'])))
+    return ok
+
+
 def replay(ctx, case):
+    if case['scenario'] == 'sequential':
+        return replay_sequential(ctx, case)
     scn, entry, move = case['scenario'], case['entry'], case['move']
     crash = 1
 
